@@ -15,7 +15,7 @@ LEVEL = 'exploration'
 SHARDS = {'quick': 4, 'thorough': 16}
 BUDGET_S = {'quick': 150, 'thorough': 420}
 RULE = ('seeded random histories (1-80 ops; to 400 thorough) of dict-API operations on LRI and LRU, '
-        'max_size 1-5 and 128, with/without a recording on_miss (pure, or one that itself stores the requested key and a neighbour into the cache), optional initial values; after every '
+        'max_size 1-5 and 128, with/without a recording on_miss (pure, or one that itself stores the requested key and a neighbour into the cache), optional initial values, update() with an iterable that raises part-way (a prefix must have been stored, nothing else) and calls with an unhashable key (TypeError, nothing changed); after every '
         'op contents, len, membership, the three counters and the on_miss log are compared with a '
         'sequential reference cache; eviction order is probed by fresh inserts at the end of every '
         'history and on every copy(); distinct = distinct (class, max_size, recency order) model states '
@@ -25,6 +25,7 @@ ASSUMPTIONS = [
     'popitem may remove any present pair (the model follows the real choice)',
     'iteration order of the cache is not specified by the property; only the key set is compared',
     'the counters / on_miss of a copy() are not specified and not compared',
+    'pop(unhashable, default) is not generated: dict.pop on an empty dict answers without hashing the key',
 ]
 _NO = '<none>'
 
@@ -89,6 +90,7 @@ class Run(object):
             init = []
         self.c = self.cls(max_size=self.max_size, **kw)
         self.st = self.model.initial(init)
+        self.nfresh = 0
 
     def fail(self, read, detail):
         raise common.Violation(read, detail)
@@ -187,6 +189,60 @@ class Run(object):
                 stats.monitor_evals += 1
                 stats.count('copies_probed')
             return            # the source must be unchanged: observe() follows
+        if name == 'update-fails':
+            # the caller's iterable raises after j pairs: the error must come out, and the cache must be left as if
+            # exactly some prefix of the pairs had been stored (every pair carries a value of its own, so the
+            # contents tell which prefix)
+            pairs = [(k, 'fresh-%d-%d' % (self.nfresh, n)) for n, k in enumerate(op[1])]
+            self.nfresh += 1
+            j = min(op[2], len(pairs))
+
+            def failing():
+                for n, p_ in enumerate(pairs):
+                    if n >= j:
+                        break
+                    yield p_
+                raise ValueError('iterable failed')
+            got = outcome(lambda: c.update(failing()))
+            if got != ('exc', 'ValueError'):
+                self.fail('result[update-fails]', 'returned %r' % (got,))
+            now = dict(dict.items(c))
+            for n in range(j, -1, -1):
+                s2 = model.apply(st, ('update', pairs[:n]))[0][0]
+                if Model.contents(s2) == now:
+                    self.st = s2
+                    break
+            else:
+                self.fail('state[update-fails]', 'after the failed update the cache holds %r; no prefix of %r explains it'
+                          % (now, pairs[:j]))
+            if stats is not None:
+                stats.monitor_evals += 1
+                stats.count('failed_updates')
+            return
+        if name == 'bad-key':
+            # an unhashable key: TypeError from every entry point, nothing changed, nothing counted
+            how = op[1]
+            self.nfresh += 1
+            fresh = 'fresh-bad-%d' % self.nfresh
+            fn = {'set': lambda: c.__setitem__([1], 2), 'getitem': lambda: c[[1]], 'get': lambda: c.get([1], 0),
+                  'setdefault': lambda: c.setdefault([1], 0), 'del': lambda: c.__delitem__([1]),
+                  'contains': lambda: [1] in c,
+                  'update': lambda: c.update([('zz-bad-a', fresh), ([1], 2)])}[how]
+            got = outcome(fn)
+            if got != ('exc', 'TypeError'):
+                self.fail('result[bad-key:%s]' % how, 'an unhashable key gave %r' % (got,))
+            if how == 'update':
+                now = dict(dict.items(c))
+                for cand in (st, model.apply(st, ('update', [('zz-bad-a', fresh)]))[0][0]):
+                    if Model.contents(cand) == now:
+                        self.st = cand
+                        break
+                else:
+                    self.fail('state[bad-key:update]', 'after the refused update the cache holds %r' % (now,))
+            if stats is not None:
+                stats.monitor_evals += 1
+                stats.count('refused_calls')
+            return
         if name in ('update', 'ior'):
             shape, pairs, kw = op[1], [tuple(p) for p in op[2]], [tuple(p) for p in (op[3] if len(op) > 3 else [])]
             arg, eff = self.build_arg(shape, pairs)
@@ -300,9 +356,14 @@ class Check(object):
             k = r.choice(pool)
             v = r.randint(0, 9)
             kind = r.choices(['set', 'getitem', 'get', 'setdefault', 'del', 'pop', 'popitem', 'clear',
-                              'update', 'ior', 'copy'],
-                             [22, 16, 10, 8, 6, 6, 3, 1, 8, 5, 5])[0]
-            if kind == 'set':
+                              'update', 'ior', 'copy', 'update-fails', 'bad-key'],
+                             [22, 16, 10, 8, 6, 6, 3, 1, 8, 5, 5, 2, 2])[0]
+            if kind == 'update-fails':
+                ops.append(['update-fails', [r.choice(pool) for _ in range(r.randint(1, ms + 2 if ms < 100 else 5))],
+                            r.randint(0, 4)])
+            elif kind == 'bad-key':
+                ops.append(['bad-key', r.choice(['set', 'getitem', 'get', 'setdefault', 'del', 'contains', 'update'])])
+            elif kind == 'set':
                 ops.append(['set', k, v])
             elif kind in ('getitem', 'del'):
                 ops.append([kind, k])
